@@ -346,7 +346,7 @@ func (g *generator) walkNumber(schema *schemaparser.Schema) (ast.Type, error) {
 		scalarKind = ast.KindFloat64
 	}
 
-	def := ast.NewScalar(scalarKind, ast.Default(schema.Default))
+	def := ast.NewScalar(scalarKind, ast.Default(unwrapDefault(schema.Default)))
 
 	if schema.Constant != nil {
 		def.Scalar.Value = unwrapJSONNumber(schema.Constant[0])
@@ -410,7 +410,7 @@ func (g *generator) walkList(schema *schemaparser.Schema) (ast.Type, error) {
 		return ast.Type{}, err
 	}
 
-	return ast.NewArray(itemsDef, ast.Default(schema.Default)), nil
+	return ast.NewArray(itemsDef, ast.Default(unwrapDefault(schema.Default))), nil
 }
 
 func (g *generator) walkEnum(schema *schemaparser.Schema) (ast.Type, error) {
